@@ -478,13 +478,17 @@ def expected_html(blocks, o):
     return html_doc(blocks)
 
 
-def rewrite_setext_in_quotes(blocks, o, inside=False):
-    """defect model of the recorded finding "setext heading inside a block quote is not recognised": below a quote a
-    setext heading reads as a paragraph whose last line is the underline; a '-' underline of three or more characters is a
-    thematic break after that paragraph"""
+def rewrite_setext_in_quotes(blocks, o, inside=False, state=None):
+    """defect model of the recorded finding "setext heading inside a block quote is not recognised": the reader of a quote
+    switches setext recognition off while it tokenizes the quote's content, and the reader of every quote switches it back on
+    when it is done. So below a quote a setext heading that comes before the first nested quote of that content (in document
+    order, list items included) reads as a paragraph whose last line is the underline - a '-' underline of three or more
+    characters is a thematic break after that paragraph - while one that comes after a nested quote is recognised."""
+    if state is None:
+        state = {'on': not inside}
     out = []
     for b in blocks:
-        if b.kind == 'setext' and inside:
+        if b.kind == 'setext' and not state['on']:
             if b.level == 1:
                 nb = N('para', lines=list(b.lines) + ['=' * o['setext_len']])
                 nb._blank_before = getattr(b, '_blank_before', False)
@@ -502,11 +506,12 @@ def rewrite_setext_in_quotes(blocks, o, inside=False):
                 nb._blank_before = getattr(b, '_blank_before', False)
                 out.append(nb)
         elif b.kind == 'quote':
-            nb = N('quote', children=rewrite_setext_in_quotes(b.children, o, True))
+            nb = N('quote', children=rewrite_setext_in_quotes(b.children, o, True, {'on': False}))
             nb._blank_before = getattr(b, '_blank_before', False)
             out.append(nb)
+            state['on'] = True          # the nested quote's reader leaves recognition switched on
         elif b.kind == 'list':
-            nb = N('list', ordered=b.ordered, start=b.start, items=[rewrite_setext_in_quotes(it, o, inside) for it in b.items])
+            nb = N('list', ordered=b.ordered, start=b.start, items=[rewrite_setext_in_quotes(it, o, inside, state) for it in b.items])
             if getattr(b, 'two', False):
                 nb.two = True
             nb._blank_before = getattr(b, '_blank_before', False)
